@@ -74,8 +74,13 @@ FetchBulkAllowed(ev) ==
                                THEN ev.out = "ok" /\ ev.sign = (IF ToInt(v) > ev.diffat THEN -1 ELSE 0)
                                ELSE ev.out = "abort")
 
+\* C17: an array object that extends beyond the sandbox is never indexed (its pointer is not
+\* dereferenced): whatever the index, the operation aborts
+FetchStraddleAllowed(ev) == ev.out = "abort"
+
 FetchAllowed(ev) ==
   CASE ev.kind = "index" -> FetchIndexAllowed(ev)
+    [] ev.kind = "straddle" -> FetchStraddleAllowed(ev)
     [] ev.kind = "ptrbase" -> FetchPtrBaseAllowed(ev)
     [] ev.kind = "deref" -> FetchDerefAllowed(ev)
     [] ev.kind = "bulk" -> FetchBulkAllowed(ev)
